@@ -38,9 +38,15 @@ Inductive op :=
 | OInsertItemsAt (i : nat) (xs : list Z)
 | OCopyFrom (xs : list Z)
 | ORemoveFirstInstance (x : Z) | ORemoveLastInstance (x : Z)
-| ORemoveAllInstances (x : Z).
+| ORemoveAllInstances (x : Z)
+| OSort (bykey : bool) (from to : nat)        (* Sort(from, to): default comparison, or comparing the keys x/4 only *)
+| OIterate (start : nat) (stride : Z)         (* QueueIterator(q, start, stride): the values visited *)
+| ORemoveSortedDups                           (* RemoveSortedDuplicateItems() *)
+| ORemoveDups                                 (* RemoveDuplicateItems() = Sort() + RemoveSortedDuplicateItems() *)
+| OInsertSorted (x : Z).                      (* InsertItemAtSortedPosition(x) *)
 
-Inductive out := OStatus (ok : bool) | OVal (v : option Z) | ONum (n : nat) | OIdx (i : option nat) | ONone.
+Inductive out := OStatus (ok : bool) | OVal (v : option Z) | ONum (n : nat) | OIdx (i : option nat) | ONone
+               | OList (l : list Z).
 
 (* ------------------------------------------------------------------ list helpers *)
 
@@ -88,6 +94,51 @@ Definition l0_reverse (l : list Z) (from to : nat) : list Z :=
     end
   else l.
 
+(* ---- sorting: the stable sort of a sub-range by a key (effect level; the in-place merge sort of the
+   code is tied to it by the correspondence run only) *)
+Definition sort_key (bykey : bool) (x : Z) : Z := if bykey then Z.div x 4 else x.
+Fixpoint insert_by (k : Z -> Z) (x : Z) (l : list Z) : list Z :=
+  match l with
+  | [] => [x]
+  | y :: t => if Z.leb (k x) (k y) then x :: l else y :: insert_by k x t
+  end.
+Definition isort_by (k : Z -> Z) (l : list Z) : list Z := fold_right (insert_by k) [] l.
+Definition l0_sort (bykey : bool) (l : list Z) (from to : nat) : list Z :=
+  let to' := Nat.min to (length l) in
+  if from <? to' then
+    firstn from l ++ isort_by (sort_key bykey) (firstn (to' - from) (skipn from l)) ++ skipn to' l
+  else l.
+
+(* ---- QueueIterator: _currentIndex += _stride in uint32 arithmetic, while IsIndexValid *)
+Definition two32 : Z := 4294967296%Z.
+Fixpoint iter_vals (get : nat -> Z) (n : nat) (idx stride : Z) (fuel : nat) : list Z :=
+  match fuel with
+  | 0 => []
+  | S f => if Z.leb 0 idx && Z.ltb idx (Z.of_nat n)
+           then get (Z.to_nat idx) :: iter_vals get n (Z.modulo (idx + stride) two32) stride f
+           else []
+  end.
+
+(* ---- RemoveSortedDuplicateItems: keep an item iff it differs from the last item kept *)
+Definition dedup_step (acc : list Z) (x : Z) : list Z :=
+  match acc with [] => [x] | y :: _ => if Z.eqb x y then acc else x :: acc end.
+Definition dedup_adj (l : list Z) : list Z := rev (fold_left dedup_step l []).
+
+(* ---- InsertItemAtSortedPosition: behind the last item that is <= x when the first item is <= x, else at the head *)
+Fixpoint last_le (x : Z) (l : list Z) (i : nat) : option nat :=
+  match l with
+  | [] => None
+  | y :: t => match last_le x t (S i) with
+              | Some j => Some j
+              | None => if Z.leb y x then Some i else None
+              end
+  end.
+Definition sorted_pos (l : list Z) (x : Z) : nat :=
+  match l with
+  | [] => 0
+  | h :: _ => if Z.leb h x then match last_le x l 0 with Some j => j + 1 | None => 0 end else 0
+  end.
+
 Definition step0 (l : list Z) (o : op) : list Z * out :=
   match o with
   | OAddTail x => (l ++ [x], OStatus true)
@@ -119,6 +170,11 @@ Definition step0 (l : list Z) (o : op) : list Z * out :=
       | None => (l, OStatus false) end
   | ORemoveAllInstances x =>
       (filter (fun y => negb (Z.eqb y x)) l, ONum (length (filter (fun y => Z.eqb y x) l)))
+  | OSort k f t => (l0_sort k l f t, ONone)
+  | OIterate s d => (l, OList (iter_vals (fun i => nth i l 0%Z) (length l) (Z.of_nat s) d (length l + 1)))
+  | ORemoveSortedDups => let k := dedup_adj l in (k, ONum (length l - length k))
+  | ORemoveDups => let k := dedup_adj (l0_sort false l 0 (length l)) in (k, ONum (length l - length k))
+  | OInsertSorted x => let p := sorted_pos l x in (l0_insert_at l p [x], OIdx (Some p))
   end.
 
 (* ---- two ideal sequences (operations that involve a second Queue, or the Queue itself as argument) *)
@@ -489,6 +545,22 @@ Definition add_head_multi_self_old (t : q1) (start num : nat) : q1 :=
   let n := Nat.min num (if start <? cnt t then cnt t - start else 0) in
   fold_left (fun g i => add_head g (getu g i)) (rev (seq start n)) t.
 
+(* Sort: every access of the in-place merge sort is a Swap / ReplaceItemAt / read inside the window, so
+   its effect on the representation is to overwrite the window with the sorted items *)
+Definition sort_items (q : q1) (bykey : bool) (from to : nat) : q1 :=
+  write_from q 0 (l0_sort bykey (abs q) from to).
+
+(* RemoveSortedDuplicateItems: compact in place, then EnsureSize(numWritten, true) *)
+Definition remove_sorted_dups (q : q1) : q1 * nat :=
+  if cnt q =? 0 then (q, 0)
+  else let keep := dedup_adj (abs q) in
+       (ensure_size (write_from q 0 keep) (length keep) true 0 false, cnt q - length keep).
+
+(* InsertItemAtSortedPosition *)
+Definition insert_sorted (q : q1) (x : Z) : q1 * nat :=
+  let p := sorted_pos (abs q) x in
+  ((if p =? 0 then add_head q x else insert_at q p x), p).
+
 Definition step1 (q : q1) (o : op) : q1 * out :=
   match o with
   | OAddTail x => (add_tail q x, OStatus true)
@@ -519,6 +591,11 @@ Definition step1 (q : q1) (o : op) : q1 * out :=
       | Some k => (remove_at q (cnt q - 1 - k), OStatus true)
       | None => (q, OStatus false) end
   | ORemoveAllInstances x => let '(q', k) := remove_all_instances q x in (q', ONum k)
+  | OSort k f t => (sort_items q k f t, ONone)
+  | OIterate s d => (q, OList (iter_vals (getu q) (cnt q) (Z.of_nat s) d (cnt q + 1)))
+  | ORemoveSortedDups => let '(q', k) := remove_sorted_dups q in (q', ONum k)
+  | ORemoveDups => let '(q', k) := remove_sorted_dups (sort_items q false 0 (cnt q)) in (q', ONum k)
+  | OInsertSorted x => let '(q', p) := insert_sorted q x in (q', OIdx (Some p))
   end.
 
 Definition run1 (ops : list op) : q1 * list out :=
